@@ -14,8 +14,17 @@ for ID in $IDS; do
 	SCR=$(mktemp -d /tmp/benign.XXXXXX)
 	rsync -a --exclude .git "${VERIF_REPO:-/repo}/" "$SCR/"
 	if ! (cd "$SCR" && patch -p1 -s < "$OLDPWD/benign/$ID.diff"); then echo "$ID patch failed"; BAD=1; rm -rf "$SCR"; continue; fi
-	UNIT=$( (cd "$SCR" && make -k check 2>&1) | grep -E "^\[  PASSED  \]|^\[  FAILED  \]" | head -2 | tr '\n' ' ')
-	(cd "$SCR" && make clean >/dev/null 2>&1)
+	if [ -n "${BENIGN_SKIP_UNIT:-}" ]; then UNIT="not re-run (BENIGN_SKIP_UNIT; the patch is unchanged since the run that recorded 141 passing tests)"
+	else UNIT=$( (cd "$SCR" && make -k check 2>&1) | grep -E "^\[  PASSED  \]|^\[  FAILED  \]" | head -2 | tr '\n' ' '); (cd "$SCR" && make clean >/dev/null 2>&1); fi
+	# a patch that touches no header leaves the harness objects as they are: seed the scratch builds with those of the baseline
+	if ! grep -qE '^\+\+\+ b/.*\.(h|hpp|inl)$' "benign/$ID.diff"; then
+		for V in asan gcc; do
+			[ "$V" = gcc ] && [ -n "${VERIF_NO_GCC_LANE:-}" ] && continue
+			./check --build $V >/dev/null 2>&1
+			BASE="$(make -s REPO="${VERIF_REPO:-/repo}" VARIANT=$V print-build)"; B="$(make -s REPO="$SCR" VARIANT=$V print-build)"
+			if [ -d "$BASE/sim" ]; then mkdir -p "$B"; cp -a "$BASE/sim" "$B/sim"; fi
+		done
+	fi
 	EVD=$(mktemp -d /tmp/benign-ev.XXXXXX)
 	for P in $PROPS; do
 		OUT=$(VERIF_REPO="$SCR" VERIF_EVIDENCE_DIR="$EVD" VERIF_REPLAY_DIR="$EVD/r" ./check "$P" quick 2>&1); RC=$?
@@ -25,7 +34,7 @@ for ID in $IDS; do
 		jq -n --arg b "$ID" --arg p "$P" --argjson rc "$RC" --arg v "$V" --arg sig "$SIG" --arg unit "$UNIT" --arg note "$NOTE" \
 			'{patch: $b, property: $p, expected_exit: 0, exit: $rc, verdict: $v, first_signature: $sig, unit_tests: $unit, note: $note}' >> "$ROWFILE"
 	done
-	BUILD=$(make -s REPO="$SCR" VARIANT=asan print-build); rm -rf "$BUILD" "$SCR" "$EVD"
+	BUILD=$(make -s REPO="$SCR" VARIANT=asan print-build); BUILDG=$(make -s REPO="$SCR" VARIANT=gcc print-build); rm -rf "$BUILD" "$BUILDG" "$SCR" "$EVD"
 done
 mkdir -p evidence
 jq -s --argjson ok "$([ $BAD = 0 ] && echo true || echo false)" '{tool: "selftest-benign", rows: ., ok: $ok}' "$ROWFILE" > "evidence/selftest-benign${BENIGN_TAG:-}.json"
